@@ -40,6 +40,8 @@ def fresh(desc, base="v", run=None):
             return RecV(desc[1], {f: fresh(d, f"{base}.{f}", run) for f, d in desc[2].items()}, desc)
         if tag == "drop":
             return Opaque(("dropped", base))
+        if tag == "dict_empty":
+            return DictV({})
         if tag == "nd":
             if len(desc) > 2:
                 n = desc[2]
@@ -269,6 +271,8 @@ def list_set(l, i, v):
             l.items[i] = v
             return
         to_symbolic(l)
+    if l.elem == "opaque":
+        return          # contents not tracked (only the length is)
     if isinstance(l.elem, tuple) and l.elem[0] == "rec":
         if not isinstance(v, RecV):
             raise Unsupported("storing non-record into record list")
@@ -427,7 +431,7 @@ def truth(v):
             return v != 0
         if z3.is_string(v):
             return z3.Length(v) > 0
-    if isinstance(v, (Obj, RecV, FuncRef, LambdaV, BoundMethod, ClassRef, EnumMember, Opaque, NdV, RegexV)):
+    if isinstance(v, (Obj, RecV, FuncRef, LambdaV, BoundMethod, ClassRef, EnumMember, Opaque, NdV, RegexV, MatchV)):
         return True
     raise Unsupported(f"truth of {v!r}")
 
